@@ -89,6 +89,7 @@ type Scenario struct {
 	CustomExec  bool   `json:"customexec"` // register application executors MYCMD / mycmd2
 	Concurrent  bool   `json:"concurrent"` // every connection is driven by its own goroutine (true concurrency)
 	Model       bool   `json:"model"`      // replies (and the ref store's contents) are judged against RedisModel.tla
+	ModelConns  []int  `json:"modelconns"` // if set: only these connections are judged against the model (C07: the witness), no store dumps
 }
 
 func goid() int64 {
@@ -219,6 +220,13 @@ func (rn *runner) serve(server *redis.Server, cr *connRun) {
 	}()
 }
 
+func modelConns(s Scenario) []int {
+	if s.ModelConns == nil {
+		return []int{}
+	}
+	return s.ModelConns
+}
+
 func chunkSizes(st Step, encs [][]byte, total int) []int {
 	if st.Cut > 0 && st.Cut < total {
 		total = st.Cut
@@ -288,7 +296,7 @@ func (rn *runner) run(s Scenario) bool {
 		s.Handler = "rec"
 	}
 	rn.rec.Emit(Ev{"ev": "scenario", "requirepass": s.RequirePass != "", "pw": BS(symBytes[s.RequirePass]), "handler": s.Handler,
-		"tracer": s.Tracer, "nconns": n, "authdouble": s.AuthDouble, "customexec": s.CustomExec, "model": s.Model})
+		"tracer": s.Tracer, "nconns": n, "authdouble": s.AuthDouble, "customexec": s.CustomExec, "model": s.Model, "modelconns": modelConns(s)})
 	started := make([]bool, n)
 	ok := true
 	var okmu sync.Mutex
@@ -351,7 +359,7 @@ func (rn *runner) run(s Scenario) bool {
 					fail()
 					break
 				}
-				if rs != nil && s.Model && !s.Concurrent {
+				if rs != nil && s.Model && !s.Concurrent && len(s.ModelConns) == 0 {
 					rn.rec.Emit(Ev{"ev": "store", "c": st.C, "dbs": rs.dump()})
 				}
 			}
